@@ -126,6 +126,7 @@ class Types:
 
     def __init__(self):
         self.records = {}     # qualified C++ name -> C struct name
+        self.aliases = {}     # `using X = T;` inside dbgroup
         self.local_alias = {}  # substituted template parameter spellings (IntType -> int32_t ...)
 
     def add_record(self, qual, cname):
@@ -150,6 +151,9 @@ class Types:
         for q, cn in self.records.items():
             if q.endswith('::' + t) or q == t:
                 return cn
+        last = t.split('::')[-1]
+        if last in self.aliases and self.aliases[last] != t and '<' not in t:
+            return self.c(self.aliases[last], node)
         for pre in ('dbgroup::lock::', 'dbgroup::thread::', 'dbgroup::random::', 'dbgroup::thread::component::', 'component::'):
             if t.startswith(pre):
                 return self.c(t[len(pre):], node)
@@ -248,6 +252,7 @@ class TU:
         self.by_id = {}
         self.parent = {}
         self.funcs = {}        # decl id -> Func
+        self.extern_funcs = {}  # declared in dbgroup, defined in another TU
         self.func_order = []
         self.records = []      # (cname, node)
         self.consts = {}       # name -> (ctype, init node)
@@ -277,6 +282,8 @@ class TU:
                 self.parent[id(n)] = p
             if n.get('kind') == 'LabelStmt':
                 self.labels[n['declId']] = n['name']
+            if n.get('kind') == 'TypeAliasDecl' and n.get('name') and 'type' in n:
+                self.types.aliases[n['name']] = n['type'].get('qualType')
         self.labels = {}
         for d in self.docs + self.anon:
             self._walk(d, None, reg)
@@ -408,7 +415,12 @@ class TU:
             else:
                 return
         if not self._has_body(n) and not n.get('_defaulted_ctor'):
-            # declaration only: remember id -> later definition shares 'previousDecl'
+            # declaration only: a definition in this TU refers back to it via previousDecl and replaces this entry;
+            # otherwise the function lives in another TU and is emitted as a bodiless declaration that must be
+            # replaced by its contract
+            if k in ('CXXMethodDecl', 'FunctionDecl') and scope and n['id'] not in self.funcs and not n.get('isImplicit'):
+                kind = 'static' if n.get('storageClass') == 'static' else ('method' if k == 'CXXMethodDecl' else 'free')
+                self.extern_funcs[n['id']] = Func(n, self._scope_name(scope + [cident(OPNAMES.get(name, name))]), self._scope_name(scope), kind)
             return
         if 'previousDecl' in n and n['previousDecl'] in self.by_id:
             # out-of-line definition: the class scope is that of the in-class declaration
@@ -475,6 +487,7 @@ class Emitter:
         self.func_stats = {}
         self.emitted = []        # (cname, signature)
         self.pending_lambdas = []
+        self.used_extern = []
         self.ret_ref = False
         self.self_value = None
 
@@ -626,6 +639,7 @@ class Emitter:
         self.cur = f
         self.names, self.used_names, self.refvars = {}, {'this', 'self'}, set()
         self.loop_no = 0
+        self.dtor_locals = []
         self.T.local_alias = self.aliases_for(f)
         self.func_stats[f.cname] = {'atomic': 0, 'loops': 0, 'returns': 0, 'calls': 0}
 
@@ -733,6 +747,13 @@ class Emitter:
             die('no default initialisation for type %s' % ct, fld)
 
     def emit_field_init(self, lhs, fld, init, ind):
+        if re.match(r'^(.*)\[(\w+)\]$', fld['type']['qualType']):
+            u = self.unwrap(init)
+            if u.get('kind') == 'InitListExpr' and not [c for c in u.get('inner', []) if c.get('kind') != 'ImplicitValueInitExpr'] and \
+                    ('array_filler' not in u or all(c.get('kind') in ('ImplicitValueInitExpr', 'CXXConstructExpr', 'InitListExpr') for c in u['array_filler'])):
+                self.emit_default_init(lhs, fld, ind)
+                return
+            die('array member with a non-empty initialiser', fld)
         ct = self.ctype(fld)
         init = self.unwrap(init)
         k = init.get('kind')
@@ -744,10 +765,13 @@ class Emitter:
             def empty(n):
                 if n.get('kind') == 'ImplicitValueInitExpr':
                     return True
+                if n.get('kind') == 'CXXConstructExpr' and not n.get('inner'):
+                    return True
                 if n.get('kind') != 'InitListExpr':
                     return False
                 if 'array_filler' in n:
-                    return len(n['array_filler']) == 1 and n['array_filler'][0].get('kind') == 'ImplicitValueInitExpr'
+                    return len(n['array_filler']) == 1 and (n['array_filler'][0].get('kind') == 'ImplicitValueInitExpr' or
+                                                            (n['array_filler'][0].get('kind') == 'CXXConstructExpr' and not n['array_filler'][0].get('inner')))
                 return all(empty(self.unwrap(c)) for c in n.get('inner', []))
             if empty(init):
                 self.emit_default_init(lhs, fld, ind)
@@ -773,15 +797,36 @@ class Emitter:
             return
         self.w('%s = %s;' % (lhs, self.expr(init)), ind)
 
+    TRIVIAL_DTOR = ('atomic_u64', 'atomic_b', 'weak_ptr_size', 'uint64_t', 'uint32_t', 'int64_t', 'int32_t', 'size_t', '_Bool', 'double')
+
+    def trivially_destructible(self, ct):
+        """in the model: no effect on ghost state when destroyed"""
+        if ct.endswith('*') or ct in self.TRIVIAL_DTOR:
+            return True
+        if ct in self.tu_fields:
+            n = self.class_node(ct)
+            if any(c.get('kind') == 'CXXDestructorDecl' and not c.get('isImplicit') and c.get('explicitlyDefaulted') != 'default' for c in n.get('inner', [])):
+                return False
+            for c in n.get('inner', []):
+                if c.get('kind') == 'FieldDecl':
+                    m = re.match(r'^(.*)\[(\w+)\]$', c['type']['qualType'])
+                    if not self.trivially_destructible(self.T.c(m.group(1), c) if m else self.ctype(c)):
+                        return False
+            return True
+        return False
+
     def emit_member_dtors(self, f, ind):
         cls = self.class_node(f.cls)
         flds = [c for c in cls.get('inner', []) if c.get('kind') == 'FieldDecl']
         for c in reversed(flds):
-            ct = self.ctype(c)
-            if ct in ('shared_ptr_size', 'weak_ptr_size', 'vec_double', 'vec_size', 'unique_ptr_MCSLock'):
+            m = re.match(r'^(.*)\[(\w+)\]$', c['type']['qualType'])
+            ct = self.T.c(m.group(1), c) if m else self.ctype(c)
+            if not m and ct in ('shared_ptr_size', 'vec_double', 'vec_size', 'unique_ptr_MCSLock'):
                 self.w('%s_dtor(&this->%s); /* implicit member destruction (reverse declaration order) */' % (ct, c['name']), ind)
-            elif ct in self.tu_fields:
-                die('implicit destruction of member of class type %s not modelled' % ct, c)
+            elif self.trivially_destructible(ct):
+                continue
+            else:
+                die('implicit destruction of member %s of type %s not modelled' % (c['name'], ct), c)
 
     # ---- statements ----------------------------------------------------------
     def stmt_list(self, comp, ind):
@@ -804,6 +849,17 @@ class Emitter:
         elif k == 'DeclStmt':
             for d in s.get('inner', []):
                 self.local_decl(d, ind)
+        elif k == 'ReturnStmt' and getattr(self, 'dtor_locals', None) and s.get('inner') and self.cur.kind not in ('ctor', 'dtor'):
+            # named locals / lifetime-extended temporaries of class type with a user-provided destructor are destroyed
+            # after the return value has been constructed (reverse order of declaration)
+            self.stat('returns')
+            rt = self.func_sig(self.cur)[0]
+            self.w('{', ind)
+            self.w('%s verif_ret = %s;' % (rt, self.addr(s['inner'][0]) if self.ret_ref else self.expr(s['inner'][0])), ind + 1)
+            for nm, ct in reversed(self.dtor_locals):
+                self.w('%s_dtor(&%s); /* implicit destruction of the local at scope exit */' % (ct, nm), ind + 1)
+            self.w('return verif_ret;', ind + 1)
+            self.w('}', ind)
         elif k == 'ReturnStmt':
             self.stat('returns')
             inner = s.get('inner', [])
@@ -927,6 +983,7 @@ class Emitter:
                 # reference bound to a temporary: lifetime-extended value
                 ct = self.T.c(strip_cv(qt).rstrip('&').strip(), d) if 'auto' not in qt else self.ctype(u)
                 self.w('%s %s = %s;' % (ct, name, self.expr(u)), ind)
+                self.note_dtor_local(name, ct)
                 return
             ct = self.ctype(d)
             self.refvars.add(d['id'])
@@ -946,6 +1003,13 @@ class Emitter:
                 die('init list local', d)
             return
         self.w('%s %s = %s;' % (ct, name, self.expr(init)), ind)
+        self.note_dtor_local(name, ct)
+
+    def note_dtor_local(self, name, ct):
+        if ct in getattr(self, 'tu_fields', {}) and any(f.cname == ct + '_dtor' for f in self.tu.func_order):
+            if self.cur.kind in ('ctor', 'dtor'):
+                die('local of class type %s with a destructor inside a constructor/destructor is not modelled' % ct)
+            self.dtor_locals.append((name, ct))
 
     # ---- expressions ---------------------------------------------------------
     def unwrap(self, e, keep_materialize=False):
@@ -1234,7 +1298,10 @@ class Emitter:
         if ct == 'vec_size_iter' and len(args) == 1:
             return self.expr(args[0])
         if ct == 'pair_EpochGuard_vecref' and len(args) == 2:
-            return 'pair_EpochGuard_vecref_make(%s, %s)' % (self.expr(args[0]), self.addr(args[1]))
+            a0 = self.strip_move(args[0])
+            if a0 is args[0]:
+                die('pair<EpochGuard, ...> construction from a non-moved guard', e)
+            return 'pair_EpochGuard_vecref_make(EpochGuard_ctor_move(%s), %s)' % (self.addr(a0), self.addr(args[1]))
         die('construction of %s with %d args not modelled' % (ct, len(args)), e)
 
     def strip_move(self, a):
@@ -1286,11 +1353,23 @@ class Emitter:
         r = callee['referencedDecl']
         rid, rn = r['id'], r.get('name')
         self.stat('calls')
+        if rid not in self.tu.funcs and rid in self.tu.extern_funcs:
+            self.tu.funcs[rid] = self.tu.extern_funcs[rid]
+            self.used_extern.append(self.tu.extern_funcs[rid])
         if rid in self.tu.funcs:
             f = self.tu.funcs[rid]
             return self.own_call(f, None, args, e)
         if rn == 'move' or rn == 'forward':
             return self.expr(args[0])
+        if rn in ('max', 'min') and not args:
+            # std::numeric_limits<T>::max()/min()
+            ct = self.ctype(e)
+            table = {('max', 'uint64_t'): '0xffffffffffffffffUL', ('max', 'size_t'): '0xffffffffffffffffUL', ('min', 'uint64_t'): '0UL',
+                     ('min', 'size_t'): '0UL', ('max', 'uint32_t'): '0xffffffffU', ('max', 'int64_t'): '0x7fffffffffffffffL',
+                     ('max', 'int32_t'): '0x7fffffff'}
+            if (rn, ct) not in table:
+                die('numeric_limits::%s of %s' % (rn, ct), e)
+            return '((%s)%s)' % (ct, table[(rn, ct)])
         if rn == 'bit_cast':
             return '((%s)%s)' % (self.ctype(e), self.paren(args[0]))
         if rn in LIB_FUNCS:
@@ -1337,6 +1416,9 @@ class Emitter:
             obj = self.expr(base)
         else:
             obj = self.addr(base)
+        if mid not in self.tu.funcs and mid in self.tu.extern_funcs:
+            self.tu.funcs[mid] = self.tu.extern_funcs[mid]
+            self.used_extern.append(self.tu.extern_funcs[mid])
         if mid in self.tu.funcs:
             f = self.tu.funcs[mid]
             if f.kind == 'static':
@@ -1533,6 +1615,26 @@ def extract(src, incs, defs, symbolic=(), extra_flags=(), only_main_and_headers=
     for f in order:
         em.emit_function(f)
     func_lines = em.lines
+    em.lines = []
+    seen_ext = set()
+    for f in em.used_extern:
+        if f.cname in seen_ext:
+            continue
+        seen_ext.add(f.cname)
+        em.begin_func(f)
+        cret, params, retref = em.func_sig(f)
+        plist = ['%s *this' % f.cls] if f.kind == 'method' else []
+        for i, pp in enumerate(params):
+            plist.append(em.param_decl(pp, i))
+        sig = '%s %s(%s)' % (cret, f.cname, ', '.join(plist) if plist else 'void')
+        em.emitted.append((f.cname, sig))
+        em.w('/* defined in another translation unit: must be replaced by its contract */')
+        em.w('/*@FUNC %s*/' % f.cname)
+        em.w(sig)
+        em.w('/*@CONTRACT %s*/' % f.cname)
+        em.w(';')
+        em.w('')
+    func_lines = em.lines + func_lines
     protos = ['%s;' % sig for _, sig in em.emitted]
     glob_lines = []
     for g, n in tu.global_decls:
